@@ -95,6 +95,12 @@ def plan_op(rng, info, doc, docs, kinds=None):
         return op, [f, t], lambda tr: tr.delete_range(f, t)
     if op in ("add_mark", "remove_mark"):
         m = gen.gen_mark(rng, schema)
+        if op == "remove_mark" and m is not None and rng.random() < 0.6:
+            # mostly a mark that is actually there
+            present = []
+            doc.descendants(lambda n, p, par, i: present.extend(n.marks) or True)
+            if present:
+                m = rng.choice(present)
         if m is None:
             return "delete", [f, t], lambda tr: tr.delete(f, t)
         if op == "add_mark":
